@@ -342,6 +342,17 @@ def gen0(tier, rng, shard, nshards):
 
     # ---- structured well-formed messages with the expected parts attached
     n_msg = (40000 if thorough else 5000) // nshards
+    # header maps far larger than any limit a parser might impose (http.client stops at 100 header lines), bodies of 64 KiB+
+    for n_h in ([99, 100, 101, 150, 1000] if thorough else [100, 101, 257]):
+        k += 1
+        if k % nshards != shard:
+            continue
+        hs = [(b"X-H%d" % i, gen_hbytes(rng)) for i in range(n_h)]
+        v, m, p, ps, _, b = gen_wellformed_req(rng)
+        if m.upper().startswith(b"HTTP/"):
+            m = b"GET"
+        yield "msg", req_case(v, m, p, ps, hs, b)
+        yield "msg", resp_case(rng.choice(VERSIONS_RESP), gen_digits(rng), rng.choice(REASONS), hs, C.rbytes(rng, rng.choice([10, 70000])))
     for _ in range(n_msg):
         r = rng.random()
         if r < 0.55:
